@@ -91,7 +91,7 @@ def run_bounded(job):
     env['VERIF_REPO'] = repo_root()
     t0 = time.time()
     try:
-        out = subprocess.run([NATIVE_PY, '-m', 'pyvc.bounded', prop, tname, json.dumps(case), str(n), str(seed)],
+        out = subprocess.run([NATIVE_PY, '-m', 'pyvc.bounded', prop, tname, json.dumps(__import__('pyvc.api').api.enc_case(case)), str(n), str(seed)],
                              capture_output=True, text=True, env=env, timeout=3000, cwd=VERIF)
         for line in reversed(out.stdout.strip().split('\n')):
             if line.startswith('BOUNDED-RESULT '):
@@ -105,7 +105,8 @@ def run_bounded(job):
 
 def native_replay(prop, tname, case, inputs, known_ids=()):
     """Run the task natively (real code, concrete inputs); returns dict or None."""
-    payload = {'property': prop, 'task': tname, 'case': case, 'inputs': inputs}
+    from pyvc.api import enc_case
+    payload = {'property': prop, 'task': tname, 'case': enc_case(case), 'inputs': inputs}
     env = dict(os.environ)
     env['PYTHONPATH'] = '%s:%s' % (repo_root(), VERIF)
     env['VERIF_REPO'] = repo_root()
@@ -245,7 +246,8 @@ def main(argv=None):
             r['task'].replace('/', '_').replace(' ', '_'), o['label'].replace('/', '_').replace(' ', '_')))
         res = native_replay(prop, r['task'], r['case'], o.get('model') or {})
         confirmed = bool(res and not res.get('error') and res.get('failed'))
-        rec = {'property': prop, 'task': r['task'], 'case': r['case'], 'obligation': o['label'],
+        from pyvc.api import enc_case
+        rec = {'property': prop, 'task': r['task'], 'case': enc_case(r['case']), 'obligation': o['label'],
                'inputs': o.get('model'), 'native_replay': res, 'confirmed_on_real_code': confirmed,
                'solver': o.get('backend'), 'repo': repo_root(),
                'how_to_replay': 'cd /verif && ./check --replay %s' % fn}
@@ -273,7 +275,8 @@ def main(argv=None):
                 os.makedirs(rdir, exist_ok=True)
                 fn = os.path.join(rdir, '%s__%s.json' % (
                     t.name.replace('/', '_').replace(' ', '_'), f['label'].replace('/', '_').replace(' ', '_')))
-                rec = {'property': prop, 'task': t.name, 'case': r['case'], 'obligation': f['label'],
+                from pyvc.api import enc_case
+                rec = {'property': prop, 'task': t.name, 'case': enc_case(r['case']), 'obligation': f['label'],
                        'inputs': f['inputs'], 'confirmed_on_real_code': True, 'bounded': True,
                        'repo': repo_root(), 'how_to_replay': 'cd /verif && ./check --replay %s' % fn}
                 with open(fn, 'w') as fh:
